@@ -35,6 +35,8 @@ type verifReplayRec struct {
 	Params     map[string]int   `json:"params"`
 	Inputs     []verifNondetRec `json:"inputs"`
 	Observed   []verifObs       `json:"observed,omitempty"`
+	Schedule   []int            `json:"schedule,omitempty"`
+	Mode       string           `json:"mode,omitempty"`
 	Expect     string           `json:"expect"` // "fail" (violation replay) or "pass" (concordance replay)
 }
 
@@ -146,10 +148,12 @@ func verifParam(name string) int {
 }
 
 func verifGo(name string, f func()) {
+	id := verifNewThread()
 	verifState.wg.Add(1)
 	go func() {
 		defer verifState.wg.Done()
-		defer verifRecoverStop()
+		verifThreadBegin(id)
+		defer verifThreadEnd(id)
 		f()
 	}()
 }
@@ -165,6 +169,29 @@ func verifRecoverStop() {
 
 // verifDrain: let goroutines started by the library run to quiescence.
 func verifDrain() {
+	verifSched.mu.Lock()
+	conc := verifSched.active && !verifSched.free
+	verifSched.mu.Unlock()
+	if conc {
+		// under a replayed schedule the harness thread simply waits for its next turn
+		verifSched.mu.Lock()
+		t := verifSched.byGID[verifGID()]
+		if t != nil {
+			t.waiting = true
+		}
+		verifSched.mu.Unlock()
+		if t != nil {
+			verifSchedEvent()
+			<-t.grant
+			// threads that were released from a blocking primitive run on their
+			// own: give them time to come to rest before the harness looks
+			for i := 0; i < 30; i++ {
+				runtime.Gosched()
+				time.Sleep(time.Millisecond)
+			}
+			return
+		}
+	}
 	for i := 0; i < 20; i++ {
 		runtime.Gosched()
 		time.Sleep(time.Millisecond)
@@ -186,6 +213,7 @@ func verifOnSync(f func()) {
 }
 
 func verifSyncPoint() {
+	verifPark()
 	verifState.mu.Lock()
 	f := verifState.onSync
 	busy := verifState.inHook
@@ -266,6 +294,9 @@ func verifLiveGoroutines() int {
 				continue
 			}
 			n++
+			if try == 4 && os.Getenv("VERIF_DEBUG") != "" {
+				fmt.Printf("LIVE GOROUTINE:\n%s\n", g)
+			}
 		}
 		if n == 0 {
 			break
@@ -365,9 +396,15 @@ func verifReplayOne(path string, funcs map[string]func()) {
 	done := make(chan string, 4)
 	verifState.doneCh = done
 	verifState.mu.Unlock()
+	verifSchedInit(rec.Schedule)
+	mainID := verifNewThread()
+	if len(rec.Schedule) > 0 {
+		go verifSchedLoop()
+	}
 	go func() {
 		verifState.mainGID = verifGID()
 		verifState.baseG = runtime.NumGoroutine()
+		verifThreadBegin(mainID)
 		defer func() {
 			if r := recover(); r != nil {
 				if s, ok := r.(verifStop); ok {
@@ -389,6 +426,7 @@ func verifReplayOne(path string, funcs map[string]func()) {
 	case <-time.After(10 * time.Second):
 		how = "hang"
 	}
+	verifSchedRelease()
 	verifState.mu.Lock()
 	defer verifState.mu.Unlock()
 	verifState.finished = true
@@ -416,3 +454,201 @@ func verifWire(payload []byte) []byte {
 }
 
 func verifNative() bool { return true }
+
+// ---------------------------------------------------------------------------
+// Replay of a schedule (CONC harnesses). The package's own sources are
+// compiled with verifSyncPoint() before every synchronisation operation and
+// every goroutine announces itself; a scheduler releases exactly one thread per
+// step of the recorded schedule and waits until it reaches its next
+// synchronisation point, ends, or blocks inside a primitive.
+
+type verifThread struct {
+	id      int
+	grant   chan struct{}
+	waiting bool // parked at a yield point, waiting for its turn
+	started bool
+	done    bool
+}
+
+var verifSched struct {
+	mu      sync.Mutex
+	active  bool
+	free    bool // schedule exhausted (or abandoned): everybody runs freely
+	threads []*verifThread
+	byGID   map[uint64]*verifThread
+	event   chan struct{}
+	sched   []int
+	drifted string
+}
+
+func verifSchedInit(schedule []int) {
+	verifSched.mu.Lock()
+	defer verifSched.mu.Unlock()
+	verifSched.active = len(schedule) > 0
+	verifSched.free = false
+	verifSched.threads = nil
+	verifSched.byGID = map[uint64]*verifThread{}
+	verifSched.event = make(chan struct{}, 1024)
+	verifSched.sched = schedule
+	verifSched.drifted = ""
+}
+
+func verifNewThread() int {
+	verifSched.mu.Lock()
+	defer verifSched.mu.Unlock()
+	t := &verifThread{id: len(verifSched.threads), grant: make(chan struct{}, 1)}
+	verifSched.threads = append(verifSched.threads, t)
+	return t.id
+}
+
+func verifSchedEvent() {
+	select {
+	case verifSched.event <- struct{}{}:
+	default:
+	}
+}
+
+// verifThreadBegin: a new goroutine waits for its first turn.
+func verifThreadBegin(id int) {
+	verifSched.mu.Lock()
+	if !verifSched.active {
+		verifSched.mu.Unlock()
+		return
+	}
+	t := verifSched.threads[id]
+	verifSched.byGID[verifGID()] = t
+	t.started = true
+	free := verifSched.free
+	if !free {
+		t.waiting = true
+	}
+	verifSched.mu.Unlock()
+	if free {
+		return
+	}
+	verifSchedEvent()
+	<-t.grant
+}
+
+func verifThreadEnd(id int) {
+	verifSched.mu.Lock()
+	if verifSched.active {
+		verifSched.threads[id].done = true
+	}
+	verifSched.mu.Unlock()
+	verifSchedEvent()
+	// an assertion failing on this goroutine ends the replay
+	if r := recover(); r != nil {
+		if s, ok := r.(verifStop); ok {
+			verifState.mu.Lock()
+			done := verifState.doneCh
+			verifState.mu.Unlock()
+			select {
+			case done <- "stop:" + s.why:
+			default:
+			}
+			return
+		}
+		panic(r)
+	}
+}
+
+func verifLiveThreads() int {
+	n := 0
+	for _, t := range verifSched.threads {
+		if !t.done {
+			n++
+		}
+	}
+	return n
+}
+
+// verifPark: the calling goroutine is at a scheduling point.
+func verifPark() {
+	verifSched.mu.Lock()
+	if !verifSched.active || verifSched.free {
+		verifSched.mu.Unlock()
+		return
+	}
+	t := verifSched.byGID[verifGID()]
+	if t == nil || verifLiveThreads() <= 1 {
+		verifSched.mu.Unlock()
+		return
+	}
+	t.waiting = true
+	verifSched.mu.Unlock()
+	verifSchedEvent()
+	<-t.grant
+}
+
+func verifSchedRelease() {
+	verifSched.mu.Lock()
+	verifSched.free = true
+	for _, t := range verifSched.threads {
+		if t.waiting {
+			t.waiting = false
+			t.grant <- struct{}{}
+		}
+	}
+	verifSched.mu.Unlock()
+}
+
+// verifSchedLoop plays the recorded schedule.
+func verifSchedLoop() {
+	settle := func(t *verifThread) {
+		// wait until t is parked again, has ended, or seems blocked in a primitive
+		deadline := time.After(30 * time.Millisecond)
+		for {
+			verifSched.mu.Lock()
+			stop := t.waiting || t.done
+			verifSched.mu.Unlock()
+			if stop {
+				return
+			}
+			select {
+			case <-verifSched.event:
+			case <-deadline:
+				return
+			}
+		}
+	}
+	for _, id := range verifSched.sched {
+		// the thread must exist and be parked (or become so: it may still be on its way)
+		var t *verifThread
+		deadline := time.After(300 * time.Millisecond)
+	wait:
+		for {
+			verifSched.mu.Lock()
+			if id < len(verifSched.threads) {
+				t = verifSched.threads[id]
+			}
+			ready := t != nil && (t.waiting || t.done)
+			verifSched.mu.Unlock()
+			if ready {
+				break
+			}
+			select {
+			case <-verifSched.event:
+			case <-deadline:
+				break wait
+			}
+		}
+		verifSched.mu.Lock()
+		if t == nil || t.done {
+			verifSched.mu.Unlock()
+			continue
+		}
+		if !t.waiting {
+			// not at a yield point: it is inside a blocking primitive (the model
+			// unblocked it); it will run by itself. Give it time to get to its next point.
+			verifSched.mu.Unlock()
+			settle(t)
+			continue
+		}
+		t.waiting = false
+		t.grant <- struct{}{}
+		verifSched.mu.Unlock()
+		settle(t)
+	}
+	verifSchedRelease()
+}
